@@ -137,7 +137,18 @@ function mutate(rng, s) {
   return out
 }
 
+/** Finding recorded by its witness only: a duplicated `__proto__` key is accepted (Note) and emitted twice. */
+function runFindingWitnesses(ctx) {
+  const { report } = ctx
+  const want = { gen: true, groups: true }
+  const res = compileMany([{ id: 0, files: [['p', '<div a="{{ {__proto__: a, __proto__: b} }}"/>']], scripts: [], want }], want).get(0)
+  const r = res && typeof res.groups === 'string' ? parses(res.groups) : null
+  if (r && !r.ok && /__proto__/.test(r.error)) report.knownHit('duplicated-proto-key-emitted-twice', '`<div a="{{ {__proto__: a, __proto__: b} }}"/>` gets a Note ("duplicated name") and every artefact then is a SyntaxError ("Duplicate __proto__ fields are not allowed in object literals"); other duplicated keys are valid JavaScript')
+  else report.notes.push('STALE-FINDING duplicated-proto-key-emitted-twice: the recorded witness no longer reproduces')
+}
+
 export async function run(ctx) {
+  if (ctx.shard === 0) runFindingWitnesses(ctx)
   const { report, tier, shard, nshards } = ctx
   const fixed = [...ladderCases(ctx), ...nameCases(ctx), ...literalCases()]
   const cases = fixed.filter((_, i) => i % nshards === shard)
